@@ -4,6 +4,7 @@
 package main
 
 import (
+	"runtime"
 	"github.com/bokysan/socketace/v2/internal/socketace"
 	"fmt"
 	"io"
@@ -400,6 +401,62 @@ func init() {
 			go sendAll(tc, d2, sizes)
 			got := recvN(app, n, budget)
 			out = append(out, TW("down"), TIn(len(got)), TIn(firstDiff(got, d2)))
+		}
+		return out
+	})
+}
+
+func init() {
+	opTimeout["c01par"] = 180 * time.Second
+	// c01par <carrier> <k> <len> <procs>   k logical connections over one physical session, each uploading and downloading its own
+	//   pattern of <len> octets AT THE SAME TIME; procs > 0 runs the scenario with that many scheduler threads (1: every goroutine
+	//   switch happens at a blocking point, which is when buffers shared by mistake are handed from one connection to another)
+	//  -> connect err | per connection: c <i> up <received> <firstdiff or -1> down <received> <firstdiff or -1>
+	register("c01par", func(a []Tok) []Tok {
+		carrier, k, n, procs := a[0].W, int(a[1].I), int(a[2].I), int(a[3].I)
+		if procs > 0 {
+			old := runtime.GOMAXPROCS(procs)
+			defer runtime.GOMAXPROCS(old)
+		}
+		w, err := newE2E(carrier, nil)
+		if err != nil {
+			return []Tok{TW("setup"), TW("err")}
+		}
+		defer w.close()
+		type pair struct{ app, tc net.Conn }
+		var ps []pair
+		for i := 0; i < k; i++ {
+			app, tc, err := w.dialApp(20 * time.Second)
+			if err != nil {
+				return []Tok{TW("connect"), TW("err")}
+			}
+			defer app.Close()
+			defer tc.Close()
+			ps = append(ps, pair{app, tc})
+		}
+		budget := 30*time.Second + time.Duration(k*n/20000)*time.Second
+		res := make([][4]int, k)
+		var wg sync.WaitGroup
+		for i := range ps {
+			wg.Add(2)
+			up, down := patBytes(1000+i, n), patBytes(2000+i, n)
+			go func(i int) {
+				defer wg.Done()
+				go sendAll(ps[i].app, up, []int{32768, 4097, 100000})
+				got := recvN(ps[i].tc, n, budget)
+				res[i][0], res[i][1] = len(got), firstDiff(got, up)
+			}(i)
+			go func(i int) {
+				defer wg.Done()
+				go sendAll(ps[i].tc, down, []int{65536, 1000})
+				got := recvN(ps[i].app, n, budget)
+				res[i][2], res[i][3] = len(got), firstDiff(got, down)
+			}(i)
+		}
+		wg.Wait()
+		var out []Tok
+		for i := range res {
+			out = append(out, TW("c"), TIn(i), TW("up"), TIn(res[i][0]), TIn(res[i][1]), TW("down"), TIn(res[i][2]), TIn(res[i][3]))
 		}
 		return out
 	})
